@@ -1,6 +1,6 @@
 (** C04 — Exactly one faithful record per logged exec, none when filtered. *)
-From Snoopy Require Import Lib.CStr Lib.Skel Output.Model Output.Proofs.
-From Gen Require Import Gen_Output Gen_Wrapper.
+From Snoopy Require Import Lib.CStr Lib.Skel Output.Model Output.Proofs Output.Errors Expand.Model Expand.Errors.
+From Gen Require Import Gen_Output Gen_Wrapper Gen_Errors Gen_Expand.
 Local Open Scope N_scope.
 
 Definition C := Gen_Output.consts.
@@ -30,6 +30,32 @@ Proof. exact (none_when_empty C). Qed.
 Theorem C04_at_most_one : forall e fe drop k arg msg, (length (action C e fe drop k arg msg) <= 1)%nat.
 Proof. exact (at_most_one C gen_ok). Qed.
 
+(** ** error logging switched on: additional records are separate, whole, framed records of the error text *)
+Lemma err_ok : err_handler_ok = true /\ err_append_text <> [].
+Proof. split; [vm_compute; reflexivity|vm_compute; discriminate]. Qed.
+Lemma egen_ok : expand_consts_ok Gen_Expand.consts = true.
+Proof. vm_compute. reflexivity. Qed.
+
+(** [n1] refused appends while the message was formatted, [n2] while the output expanded its own path/ident template for
+    the message's record: the sink receives exactly n1+n2 framed copies of the error text and then the ONE record of the message *)
+Theorem C04_error_records : forall e fe k arg n1 n2 msg, msg <> [] -> has_sink C k arg -> e_prio e < 2 ^ 32 -> e_pid e < 2 ^ 32 ->
+    action_el C e true fe false k arg n1 n2 err_append_text msg
+    = times (n1 + n2) [(sink_of C e k arg, documented_frame 255 e k err_append_text)] ++ [(sink_of C e k arg, documented_frame 255 e k msg)].
+Proof. intros e fe k arg n1 n2 msg Hm Hs Hp Hq. rewrite <- prec_255. exact (action_el_shape C e gen_ok fe k arg n1 n2 err_append_text msg Hm (proj2 err_ok) Hs Hp Hq). Qed.
+
+(** error logging off, or nothing refused: exactly the records of C04_one_record / none *)
+Theorem C04_error_logging_off : forall e fe drop k arg n1 n2 err msg, action_el C e false fe drop k arg n1 n2 err msg = action C e fe drop k arg msg.
+Proof. exact (action_el_off C). Qed.
+Theorem C04_no_refusal_no_error_record : forall e el fe drop k arg err msg, action_el C e el fe drop k arg 0 0 err msg = action C e fe drop k arg msg.
+Proof. exact (action_el_none C). Qed.
+Theorem C04_dropped_silent_with_error_logging : forall e el k arg n1 n2 err msg, action_el C e el true true k arg n1 n2 err msg = [].
+Proof. exact (action_el_dropped C). Qed.
+
+(** and nothing is refused (no error record at all) whenever the full expansion fits the buffer *)
+Theorem C04_fits_no_error_record : forall known ds bufsize third fmt,
+    len (full Gen_Expand.consts known ds third fmt) < bufsize -> generate_errors Gen_Expand.consts known ds bufsize third fmt = 0%nat.
+Proof. intros known ds. exact (no_errors_when_fits Gen_Expand.consts known ds egen_ok). Qed.
+
 Example C04_nonvacuous :
   action C {| e_path_of := fun p => p; e_ident := [x73]; e_prio := 86; e_pid := 42 |} true false ODevlog [] [x68; x69]
   = [(SkDgram (devlog_path C), [x3c; x38; x36; x3e; x73; x5b; x34; x32; x5d; x3a; x20; x68; x69])].
@@ -41,3 +67,5 @@ Print Assumptions C04_devlog_frame.
 Print Assumptions C04_none_when_dropped.
 Print Assumptions C04_none_when_empty.
 Print Assumptions C04_at_most_one.
+Print Assumptions C04_error_records.
+Print Assumptions C04_fits_no_error_record.
